@@ -427,7 +427,17 @@ fn quote_arg(rng: &mut Rng, a: &str) -> String {
 impl Gen {
     fn new_path(&self, rng: &mut Rng) -> String {
         let d = *rng.pick(&DIRS);
-        let name = format!("f{}.ds", self.files.len());
+        // mostly plain names; sometimes names that look like something else to a careless path
+        // test: a drive-letter shape (second character `:`), a leading dot / tilde / dash, no extension
+        let k = self.files.len();
+        let name = match rng.below(12) {
+            0 => format!("{}:f.ds", k % 10),
+            1 => format!("C:f{}.ds", k),
+            2 => format!(".f{}.ds", k),
+            3 => format!("~f{}.ds", k),
+            4 => format!("f{}", k),
+            _ => format!("f{}.ds", k),
+        };
         if d.is_empty() { format!("/R/{}", name) } else { format!("/R/{}/{}", d, name) }
     }
 
